@@ -218,9 +218,9 @@ class TheCheck(Check):
             sts.append(Stream(name, ops))
         ops = []
         for _ in range(10000 if quick else 120000):
-            sep = rng.choice(b"====: ")
+            sep = rng.choice(b"====: #[")
             env = {b"HOME": b"/home/q", b"USER": b"qlibc", b"EMPTY": b"", b"X_1": b" a  b ", b"P": b"/usr:/bin"}
-            nodes = G.gen_ini(rng, sep, env)
+            nodes = G.gen_ini(rng, sep, env, lookalike=0.05)
             op = G.ini_op(sep, G.render_ini(rng, nodes, sep), env)
             self.expect[op] = ("ini", G.ini_expected(nodes, env))
             ops.append(op)
@@ -228,8 +228,10 @@ class TheCheck(Check):
         # the same grammar spread over files: `@INCLUDE` lines are a layout of the document
         ops = []
         for _ in range(3000 if quick else 40000):
-            sep = rng.choice(b"====: ")
-            nodes = G.gen_ini(rng, sep, {})
+            sep = rng.choice(b"====: #[")
+            # lines that merely look like a directive (`@INCLUDES=..`, a bare `@INCLUDE`, `@INCLUDE<TAB>x`, the
+            # directive after blanks / in a comment / in lower case) are ordinary entries and comments
+            nodes = G.gen_ini(rng, sep, {}, lookalike=0.2)
             if rng.random() < 0.15:      # the directive text inside a value is just text
                 nodes.append(G.IniNode("entry", name=b"zz", parts=[("lit", b"see @INCLUDE " + rng.choice(G.INC_NAMES[:6]))]))
             mainpath = rng.choice([b"/V/main.conf", b"/V/main.conf", b"main.conf", b"/V/etc/q.conf"])
